@@ -110,23 +110,128 @@ def run(ctx):
     ctx.require(okn, "R-C13-3", "nopartitions", "NoPartitions exactly when the list is empty; pop only when it is not", "the emptiness test does not separate NoPartitions from pop()", loc_str(lc.span))
 
     ctx.rule("R-C13-4", "within a level a community changes only by removing / adding a node's whole member set")
-    names = co.locals_named("_partition")
+    # the level partition: the Vec<HashSet<..>> that reaches the FIRST component of the returned tuple and is
+    # updated in place (identified by data flow, not by its name)
     okm = False
-    detail = ""
-    if len(names) == 1:
-        v = names[0]
-        writes = [s for s in co.stmts() if s.k == "assign" and s.lhs.has_deref() and ("L", v) in cf.resolve(s.lhs)]
+    detail = "no in-place updated vector of sets reaches the first returned component"
+    first = None
+    for (dbb, d) in co.assigns_to(0):
+        rv = getattr(d, "rv", None)
+        if rv is not None and rv.k == "aggr" and rv.j.get("ak") == "tuple" and rv.ops:
+            first = rv.ops[0]
+    cands = []
+    if first is not None:
+        sl0 = cf.slice_local(cf._op_reads(first), data_only=True)
+        for n in sl0:
+            if n[0] == "L" and "Vec<std::collections::HashSet<" in co.local_ty(n[1]) and not co.local_ty(n[1]).startswith("&"):
+                ws = [s for s in co.stmts() if s.k == "assign" and s.lhs.has_deref() and ("L", n[1]) in cf.resolve(s.lhs)]
+                if ws:
+                    cands.append((n[1], ws))
+    if len(cands) == 1:
+        v, writes = cands[0]
         kinds = []
-        coms = set()
-        for s in writes:
-            sl = cf.slice_local(cf._op_reads(s.rv.ops[0]) if s.rv.ops else set(), data_only=True)
-            from engines import producers
+        member_sets = []
+        from engines import producers
 
+        for s in writes:
             pr = {x.split("::")[-1] for x in producers(flows, co, s.rv.ops[0])} if s.rv.ops else set()
             kinds.append("difference" if pr == {"difference"} else ("union" if pr == {"union"} else "other:%s" % sorted(pr)))
+            sl = cf.slice_local(cf._op_reads(s.rv.ops[0]) if s.rv.ops else set(), data_only=True)
+            ms = set()
             for n in sl:
-                if n[0] == "L" and co.local_name(n[1]) == "com":
-                    coms.add(n[1])
-        okm = sorted(kinds) == ["difference", "union"] and len(coms) == 1
-        detail = "%s with member set %s" % (kinds, sorted(co.local_name(c) for c in coms))
+                if n[0] == "CALL":
+                    t = co.blocks[n[1]].term
+                    if t.callee and t.callee.short.split("::")[-1] in ("difference", "union") and len(t.args) > 1:
+                        ms |= {o for o in cf._operand_pts(t.args[1]) if o[0] == "L"}
+            member_sets.append(frozenset(ms))
+        same = len(member_sets) == 2 and member_sets[0] and member_sets[0] == member_sets[1]
+        okm = sorted(kinds) == ["difference", "union"] and same
+        detail = "%s with member sets %s" % (kinds, [sorted(co.local_name(o[1]) or "_%d" % o[1] for o in m) for m in member_sets])
+    elif len(cands) > 1:
+        detail = "%d vectors of sets reach the first returned component" % len(cands)
     ctx.require(okm, "R-C13-4", "whole-set-moves", "the level partition is updated by one difference and one union with the same member set", "the level partition is updated by %s" % detail, loc_str(co.span))
+
+    # ------------------------------------------------------------------ R-C13-5
+    # The working graphs of Louvain are Graph<usize, _>: node NAMES and node POSITIONS have the same type, so
+    # the compiler cannot tell them apart here (elsewhere T is abstract and it can).  Domain discipline:
+    # an argument bound to a parameter the Graph API declares as `usize` (a position) must derive from a
+    # position source; an argument bound to a parameter declared `T` (a name) must not derive only from one.
+    ctx.rule("R-C13-5", "where the node name type is usize (Louvain's working graphs), position parameters of the Graph API get positions and name parameters get names")
+    POS_SOURCES = ("get_node_index", "enumerate", "position", "number_of_nodes")
+    n_calls = n_pos = 0
+    for p in sorted(prog.bodies):
+        cb = prog.bodies[p]
+        root = cb
+        while root.kind == "closure":
+            root = prog.bodies[root.item["parent"]]
+        if "community::louvain::" not in root.short:
+            continue
+        cfl = flows.of(cb)
+        for t in cb.calls():
+            tp = t.callee.target_path(prog) if t.callee else None
+            if not tp:
+                continue
+            it = prog.items[tp]
+            if not str(it.get("impl_self") or "").startswith("graph::Graph<") or not t.callee.args or t.callee.args[0] != "usize":
+                continue
+            n_calls += 1
+            ins = it.get("inputs", [])
+            for i, ty in enumerate(ins):
+                if i == 0 or i >= len(t.args):
+                    continue
+                decl = ty.replace("&", "").replace("mut ", "").strip()
+                if decl not in ("usize", "T"):
+                    continue
+                # provenance inside this function and the crate helpers it calls (not the whole history of the graph)
+                sl = flows.slice(cb.path, cfl._op_reads(t.args[i]), up=False, down=True, data_only=True, max_nodes=60000, max_stack=2)
+                cal = set()
+                name_field = False
+                for (bp, n) in sl:
+                    if n[0] == "CALL":
+                        tt = prog.bodies[bp].blocks[n[1]].term
+                        if tt.callee:
+                            cal.add(tt.callee.short.split("::")[-1])
+                    elif n[0] == "SRC" and n[2] and [f for f in n[2] if f != "*"][-1:] in (["name"], ["u"], ["v"]):
+                        name_field = True
+                from_pos = bool(cal & set(POS_SOURCES))
+                key = "%s|%s|arg%d" % (cb.short.split("::{closure")[0], short(tp).split("::")[-1], i)
+                if decl == "usize":
+                    n_pos += 1
+                    ctx.require(from_pos, "R-C13-5", key, "position argument of %s derives from a position source" % short(tp).split("::")[-1], "%s takes a node POSITION but is given a value that derives from no position source (%s) in %s: on a working graph whose nodes were not created in name order the wrong node is addressed" % (short(tp).split("::")[-1], "a node name" if name_field else "calls: %s" % sorted(cal)[:6], cb.short), loc_str(t.span))
+                else:
+                    ctx.require(name_field or not from_pos, "R-C13-5", key, "name argument of %s is not a position" % short(tp).split("::")[-1], "%s takes a node NAME but is given a position (from %s) in %s" % (short(tp).split("::")[-1], sorted(cal & set(POS_SOURCES)), cb.short), loc_str(t.span))
+    ctx.counters["graph_api_calls_with_usize_names"] = n_calls
+    ctx.counters["position_arguments"] = n_pos
+    ctx.floor("R-C13-5", "graph_api_calls_with_usize_names", n_calls, 5)
+
+    # ------------------------------------------------------------------ R-C13-6
+    # Termination of the local-move loop rests on one argument: no move decreases modularity (ties go to the
+    # lowest community number), and there are finitely many partitions.  One structural fact is necessary for
+    # that argument (it is NOT sufficient, and termination itself is not decided): on a directed graph the weight
+    # between a node and a community counts the edges in BOTH directions (the directed modularity gain is
+    # symmetric in in- and out-links); with the successors only, what the loop maximises is not the modularity
+    # change, and it need not stop (observed: two directed 3-cycles joined by one edge never returned).
+    ctx.rule("R-C13-6", "local moves: on directed graphs the neighbour-community weights count outgoing AND incoming edges")
+    ub = prog.one("louvain::update_best_com")
+    uf = flows.of(ub)
+    calls = [t for t in co.calls() if t.callee and t.callee.target_path(prog) == ub.path]
+    if len(calls) != 1:
+        ctx.anchor_lost("R-C13-6", "one update_best_com call in compute_one_level")
+    else:
+        t = calls[0]
+        # the weights argument: the by-value map from community to weight
+        wargs = [i for i, a in enumerate(t.args) if a.place is not None and a.place.ty.startswith("std::collections::HashMap<usize, f64")]
+        if len(wargs) != 1:
+            ctx.anchor_lost("R-C13-6", "the community-weights argument of update_best_com")
+        else:
+            wi = wargs[0]
+            wsl = flows.slice(co.path, cf._op_reads(t.args[wi]), up=False, down=True, data_only=True, max_stack=2, max_nodes=80000)
+            wcal = set()
+            for (bp, n) in wsl:
+                if n[0] == "CALL":
+                    tt = prog.bodies[bp].blocks[n[1]].term
+                    if tt.callee:
+                        wcal.add(tt.callee.short.split("::")[-1])
+            both = ("get_successors_map" in wcal or "get_successor_nodes" in wcal or "get_out_edges_for_node" in wcal) and ("get_predecessors_map" in wcal or "get_predecessor_nodes" in wcal or "get_in_edges_for_node" in wcal)
+            alle = bool(wcal & {"get_all_edges", "get_edges_for_node"})
+            ctx.require(both or alle, "R-C13-6", "both-directions", "the neighbour-community weights are built from outgoing and incoming edges", "the neighbour-community weights are built from %s only: on a directed graph the incoming edges of a node are ignored, the maximised quantity is not the modularity change and the local-move loop has no monotone potential (it can run forever, e.g. on two directed 3-cycles joined by one edge)" % sorted(wcal & {"get_successors_map", "get_predecessors_map", "get_successor_nodes", "get_predecessor_nodes"}), loc_str(t.span))
